@@ -224,7 +224,66 @@ def t_cmpflip(tree):
     return tree
 
 
-T = {"argtemp": t_argtemp, "compr2loop": t_compr2loop, "swapif": t_swapif, "cmpflip": t_cmpflip, "rename": t_rename, "iftemp": t_iftemp, "rettemp": t_rettemp, "ifexp": t_ifexp, "guard": t_guard, "unelse": t_unelse}
+def t_andsplit(tree):
+    """if a and b: X   (no else)  ->  if a: if b: X"""
+    for n in ast.walk(tree):
+        if isinstance(n, ast.If) and not n.orelse and isinstance(n.test, ast.BoolOp) and isinstance(n.test.op, ast.And) and len(n.test.values) == 2:
+            a, b = n.test.values
+            n.test = a
+            n.body = [ast.copy_location(ast.If(test=b, body=n.body, orelse=[]), n)]
+    return tree
+
+
+def t_andmerge(tree):
+    """if a: if b: X   (no else on either, nothing else in the outer body)  ->  if a and b: X"""
+    for n in ast.walk(tree):
+        if isinstance(n, ast.If) and not n.orelse and len(n.body) == 1 and isinstance(n.body[0], ast.If) and not n.body[0].orelse:
+            inner = n.body[0]
+            n.test = ast.copy_location(ast.BoolOp(op=ast.And(), values=[n.test, inner.test]), n.test)
+            n.body = inner.body
+    return tree
+
+
+def t_isnot(tree):
+    """x is not None  ->  not x is None"""
+    class V(ast.NodeTransformer):
+        def visit_Compare(self, n):
+            self.generic_visit(n)
+            if len(n.ops) == 1 and isinstance(n.ops[0], ast.IsNot):
+                return ast.copy_location(ast.UnaryOp(op=ast.Not(), operand=ast.Compare(left=n.left, ops=[ast.Is()], comparators=n.comparators)), n)
+            return n
+    return V().visit(tree)
+
+
+def t_elsewrap(tree):
+    """if c: <terminating>; REST   ->   if c: <terminating> else: REST      (inverse of `guard`)"""
+    for holder, fld, lst in list(_blocks(tree)):
+        for i, s in enumerate(lst):
+            if isinstance(s, ast.If) and not s.orelse and _terminates(s.body) and i + 1 < len(lst) and isinstance(holder, ast.FunctionDef) and fld == "body":
+                s.orelse = lst[i + 1:]
+                del lst[i + 1:]
+                break
+    return tree
+
+
+def t_tupassign(tree):
+    """a = e1 ; b = e2   (plain names, e2 does not read a, neither value is a call)  ->  a, b = e1, e2"""
+    inside = in_function(tree)
+    for holder, fld, lst in list(_blocks(tree)):
+        i = 0
+        while i + 1 < len(lst):
+            a, b = lst[i], lst[i + 1]
+            if id(a) in inside and all(isinstance(s, ast.Assign) and len(s.targets) == 1 and isinstance(s.targets[0], ast.Name) for s in (a, b)) \
+                    and a.targets[0].id != b.targets[0].id and not any(isinstance(x, ast.Name) and x.id == a.targets[0].id for x in ast.walk(b.value)) \
+                    and not any(isinstance(x, (ast.Call, ast.Lambda, ast.ListComp, ast.GeneratorExp)) for s in (a, b) for x in ast.walk(s.value)):
+                t = ast.Tuple(elts=[a.targets[0], b.targets[0]], ctx=ast.Store())
+                v = ast.Tuple(elts=[a.value, b.value], ctx=ast.Load())
+                lst[i:i + 2] = [ast.copy_location(ast.Assign(targets=[t], value=v), a)]
+            i += 1
+    return tree
+
+
+T = {"andsplit": t_andsplit, "andmerge": t_andmerge, "isnot": t_isnot, "elsewrap": t_elsewrap, "tupassign": t_tupassign, "argtemp": t_argtemp, "compr2loop": t_compr2loop, "swapif": t_swapif, "cmpflip": t_cmpflip, "rename": t_rename, "iftemp": t_iftemp, "rettemp": t_rettemp, "ifexp": t_ifexp, "guard": t_guard, "unelse": t_unelse}
 
 if __name__ == "__main__":
     name, root = sys.argv[1], sys.argv[2]
